@@ -162,3 +162,70 @@ CONTRACTS += [
     Contract('codegen.locate', ['C01', 'C06', 'C03'], ['qbee.qvm_codegen:gen_locate_stmt', 'qvm.machine:TerminalDevice._exec_locate'], body_locate,
              cases=[(r, c, k) for r in (False, True) for c in (False, True) for k in (False, True)]),
 ]
+
+
+# ------------------------------------------------------------------ builtin functions: generated code delivers the static type
+
+from contracts.vm import Trapped, TrapCode
+from qbee import expr as qexpr
+
+BUILTINS = {
+    # name: list of argument signatures (N = numeric, S = string)
+    'abs': ['N'], 'asc': ['S'], 'chr$': ['N'], 'cint': ['N'], 'clng': ['N'], 'int': ['N'], 'instr': ['SS', 'NSS'],
+    'lcase$': ['S'], 'ucase$': ['S'], 'ltrim$': ['S'], 'rtrim$': ['S'], 'left$': ['SN'], 'right$': ['SN'], 'len': ['S'],
+    'mid$': ['SN', 'SNN'], 'space$': ['N'], 'str$': ['N'], 'string$': ['NN', 'NS'], 'err': [''],
+}
+
+
+def builtin_cases():
+    out = []
+    for name, sigs in BUILTINS.items():
+        for sig in sigs:
+            nn = sig.count('N')
+            for nt in (('INTEGER',), ('LONG',), ('DOUBLE',)) if nn else ((None,),):
+                out.append((name, sig, nt[0]))
+    return out
+
+
+def body_builtin(h, name, sig, numtype):
+    """the code generated for a builtin function call, run on the machine, leaves exactly one cell whose type is the static
+    type of the call (BuiltinFuncCall.type); it can only fail with a language-level error"""
+    args, cells = [], []
+    for i, ch in enumerate(sig):
+        t = 'STRING' if ch == 'S' else numtype
+        n = _LvStub(TYPES[t][1])
+        args.append(n)
+        cells.append(mkcell(h, TYPES[t][0], f'arg{i}'))
+    node = object.__new__(qexpr.BuiltinFuncCall)
+    node.name, node.args, node.parent = name, args, None
+    tout = h.call(qexpr.BuiltinFuncCall.type.fget, node)
+    if not tout.returned:
+        h.prove('static_type.no_exception', False, detail=repr(tout))
+        return
+    st = tout.value
+    code = qvm_codegen.QvmCode()
+    out = h.call(qvm_codegen.gen_builtin_func_call, node, code, ChildGen(None, args))
+    if not out.returned:
+        h.prove('generator.no_exception', False, detail=repr(out))
+        return
+    cpu = new_cpu(h, [])
+    cpu.last_trap = TrapCode.DIVISION_BY_ZERO
+    if h.symbolic:
+        from contracts.c_print import format_number_contract, _H
+        _H[0] = h
+        h.set_call('qvm.utils.format_number', format_number_contract)
+    bad = run_instrs(h, cpu, code._instrs, cells)
+    if bad is not None:
+        ok = bad.raised(Trapped) and bad.exc.trap_code in (TrapCode.INVALID_OPERAND_VALUE, TrapCode.INVALID_CELL_VALUE)
+        h.prove('only_a_language_level_error_can_occur', ok, detail=repr(bad))
+        return
+    out_cells = stack_after(h, cpu, 1)
+    if out_cells:
+        want = {'integer': CT.INTEGER, 'long': CT.LONG, 'single': CT.SINGLE, 'double': CT.DOUBLE, 'string': CT.STRING}[st.name]
+        h.prove('result_cell_has_the_static_type_of_the_call', out_cells[0].type == want, detail=f'{out_cells[0].type} vs {st.name}')
+
+
+CONTRACTS += [
+    Contract('codegen.builtin_types', ['C03', 'C01', 'C07'], ['qbee.qvm_codegen:gen_builtin_func_call', 'qbee.expr:BuiltinFuncCall.type'],
+             body_builtin, cases=builtin_cases()),
+]
